@@ -361,6 +361,22 @@ def check(doc):
     return w, src, nt
 
 
+def shell_route(doc, src, expected):
+    d = os.path.join(sut.scratch_dir(), 'c19s')
+    os.makedirs(d, exist_ok=True)
+    with open(os.path.join(d, 't.tex'), 'w', encoding='utf-8') as f:
+        f.write(src)
+    args = ['--list-unknown', '--language', 'en', '--packages', doc[0] or '', '--documentclass', doc[1] or '', 't.tex']
+    with watchdog(120):
+        rc, out, err = sut.run_shell(args, d, plan={'mode': 'flag_words', 'words': []})
+    out = out.decode('utf-8')
+    want = ('=== t.tex ===\n' + '\n'.join(expected) + '\n') if expected else ''
+    if rc != 0 or out != want:
+        raise Violation('shell-list-unknown-differs', {'doc': doc, 'src': src, 'shell': True},
+                        {'status': rc, 'stdout': out, 'expected': want, 'stderr': err.decode('utf-8', 'replace')[-400:]})
+
+
+
 def selfcheck():
     """templates must agree with the documentation"""
     cat = catalogue()
@@ -381,7 +397,9 @@ def selfcheck():
 def replay(case):
     from vlib.docprop import untuple
     try:
-        check(untuple(case['doc']))
+        w, src, nt = check(untuple(case['doc']))
+        if case.get('shell'):
+            shell_route(untuple(case['doc']), src, w.expected)
     except Violation as v:
         return v
     return None
@@ -393,8 +411,14 @@ def run_shard(ctx):
         ctx.error('templates disagree with list-of-macros.md: %r' % bad)
         return
 
+    count = [0]
+
     def one(doc):
         w, src, nt = check(doc)
+        count[0] += 1
+        if count[0] % (40 if ctx.tier == 'quick' else 10) == 0:
+            shell_route(doc, src, w.expected)
+            ctx.stats.case(key=('shell', src, doc[0], doc[1]), nontrivial=nt, classes=['shell --list-unknown'])
         cl = ['pack:' + ('none' if not doc[0] else ('*' if doc[0] == '*' else 'selection'))]
         if w.expected:
             cl.append('non-empty-list')
